@@ -24,6 +24,8 @@ TPayCtor == /\ IsEv("payctor")
             /\ LET res == IF r.which = "merchant" THEN L!PayMerchant(r.u) ELSE L!PayCustomer(r.u) IN
                  (res.ok /\ r.out = "ok" /\ AmtEq(r.a, res.v)) \/ (~res.ok /\ r.out = res.err)
 TTryAdd == IsEv("tryadd") /\ Same(L!TryAdd(r.m, r.c), r.out, r.v)
+(* the decoder of a balance is a constructor: it agrees with try_new (an out-of-range operand never exists) *)
+TBalDecode == IsEv("baldecode") /\ Same(L!TryNew(r.u), r.out, r.v)
 TAmtDecode == IsEv("amtdecode") /\ r.out = "ok" /\ r.same          \* every i64 decodes to itself, no panic
 TApply == /\ IsEv("apply")
           /\ LET res == L!ApplyBoth(r.cb, r.mb, r.amt) IN
@@ -31,7 +33,7 @@ TApply == /\ IsEv("apply")
                               /\ TB!BigAdd(r.ncb, r.nmb) = TB!BigAdd(r.cb, r.mb)             \* conservation
                ELSE r.out \in res.errs /\ r.unchanged
 TEncAmt == IsEv("encamt") /\ r.out = (IF r.same THEN "accepted" ELSE "refused")
-TNext == TTryNew \/ TPayCtor \/ TTryAdd \/ TAmtDecode \/ TApply \/ TEncAmt
+TNext == TTryNew \/ TPayCtor \/ TTryAdd \/ TBalDecode \/ TAmtDecode \/ TApply \/ TEncAmt
 TSpec == l = 1 /\ [][TNext]_l
 Accepted ==
   LET n == TLCGet("stats").diameter - 1 IN
